@@ -15,7 +15,7 @@ CONSTANTS MaxLen,     \* longest stream
 VARIABLES stream
 vars == <<stream>>
 
-Alph == CASE Alpha = "safe" -> SafeAlphabet [] Alpha = "mini" -> MiniAlphabet [] OTHER -> Alphabet
+Alph == CASE Alpha = "safe" -> SafeAlphabet [] Alpha = "mini" -> MiniAlphabet [] Alpha = "relabel" -> RelabelAlphabet [] OTHER -> Alphabet
 
 Init == stream = <<>>
 Next == Len(stream) < MaxLen /\ \E el \in Alph : stream' = Append(stream, el)
